@@ -69,11 +69,27 @@ Proof. vm_compute. repeat split; reflexivity. Qed.
     1-second intervals.  Before the fix of GetTimeFromTicks (known_findings.txt: fixed, F1) this was
     REFUTED by the model (1Sec offset 999999999 ns decoded one second late; 1Min 27.000000005 s decoded
     as 27.999999997 s); the former witnesses are now regression inputs (corpus/C10) on which the
-    statement is evaluated, see C10_regressions.  It is STATED, NOT PROVED in general (partial results
-    below); it is evaluated on every generated case (Corr/C10.model_prop). *)
+    statement is evaluated, see C10_regressions.  Since phase 5 it is PROVED (C10_roundtrip below); it is
+    also evaluated on every generated case (Corr/C10.model_prop). *)
 Definition C10_full : Prop := forall ipd o, In ipd ipds -> 0 <= o < interval_ns ipd ->
   let o' := dec_offset ipd (enc ipd o) in
   0 <= o' <= o /\ o - o' <= step_ns ipd /\ (ipd = 86400 -> o' = o).
+
+(** C10_full is PROVED: for EVERY on-disk timeframe and EVERY offset of its interval (no finite domain,
+    no side condition) the decoded time lies in the interval, is not after the original, at most one
+    resolution step ceil(interval/2^32) before it, and exact for 1-second intervals.  Analytic proof on
+    the Flocq model of the post-fix code: encoder accuracy (6u), decoder fractionalSeconds accuracy
+    (4u), exact Floor / fraction (Sterbenz), half-ulp bound showing that the decoder's
+    `subseconds >= 1e9` branch is dead code (C10_dec_nowrap), and the integer extraction with carry. *)
+Theorem C10_roundtrip : C10_full.
+Proof. intros ipd o Hin Ho. exact (roundtrip ipd o Hin Ho). Qed.
+Print Assumptions C10_roundtrip.
+
+(** the `subseconds >= 1e9` branch of GetTimeFromTicks is never taken, for every intervalsPerDay <= 2^17
+    and every uint32 tick count *)
+Theorem C10_dec_nowrap : forall ipd k, (1 <= ipd <= 2 ^ 17)%Z -> (0 <= k < 2 ^ 32)%Z -> dec_nowrapb ipd k = true.
+Proof. exact dec_nowrap_always. Qed.
+Print Assumptions C10_dec_nowrap.
 
 (** the former refutation witnesses now satisfy the statement *)
 Example C10_regressions :
@@ -83,7 +99,7 @@ Example C10_regressions :
   /\ (let o' := dec_offset 8640 (enc 8640 9999999999) in 0 <= o' <= 9999999999 /\ 9999999999 - o' <= step_ns 8640).
 Proof. vm_compute. repeat split; try reflexivity; discriminate. Qed.
 
-(** PARTIAL results towards C10_full (analytic, for ALL timeframes and ALL offsets; u = 2^-53).
+(** The ingredients of C10_roundtrip (analytic, for ALL timeframes and ALL offsets; u = 2^-53).
 
     Encoder: the tick count is the exact count 2^32 * o / interval truncated, up to a relative error
     of 6u (five roundings plus the representation error of the constant 2^32/86400). *)
